@@ -281,6 +281,9 @@ impl Runner {
 /// Verification hooks: access to the private helpers of this module.
 #[cfg(n2_verif)]
 pub mod verif_hooks {
+    pub fn write_rspfile(rspfile: &crate::graph::RspFile) -> anyhow::Result<()> {
+        super::write_rspfile(rspfile)
+    }
     pub fn extract_showincludes(output: Vec<u8>) -> (Vec<String>, Vec<u8>) {
         super::extract_showincludes(output)
     }
